@@ -413,6 +413,13 @@ def discharge(ctx, m, inv_ok, cr, b, bi, kind, term, T):
                 from .c17 import _is_unwrapped_global
                 if _is_unwrapped_global(ctx.mac, strip_generics(b.path)):
                     return True, 'D6: the documented panic of the statsd_* macros when no global client is set (C17), moved into a helper of the macro crate'
+        if k.endswith('as core::ops::index::Index>::index') and len(term[2]) == 2:
+            # slice[..end] / slice[start..]: in bounds when std's algebra gives end <= len (start <= len)
+            sl, rng = _canon(term[2][0]), norm(term[2][1])
+            if rng[0] == 'adt' and rng[1] in ('core::ops::range::RangeTo', 'core::ops::range::RangeFrom'):
+                bound = _canon(list(dict(rng[3]).values())[0])
+                if _le(bound, ('len', sl)):
+                    return True, 'D7: %s of a slice with a bound that is <= its length by construction (%s)' % (rng[1].rsplit('::', 1)[-1], fmt(bound)[:60])
         if k.endswith(('core::panicking::panic', 'core::panicking::panic_fmt', 'core::panicking::assert_failed')):
             # an assertion: the panic is behind `if !(cond)`; discharged when cond is a fact of std's own algebra
             for dt, labels, _sbi in (guards_of(T, bi) or []):
